@@ -7,6 +7,7 @@ mod gen;
 #[path = "/repo/ragc-cli/src/main.rs"]
 #[allow(warnings)]
 mod ragc_cli;
+mod oracle;
 mod props;
 mod report;
 mod sched;
